@@ -3,15 +3,20 @@ use crate::codec::{size_of, Enc, Rec, St};
 use crate::reference::structs::{mismatch, Fields};
 use elf::endian::AnyEndian;
 use elf::string_table::StringTable;
-use elf::{ElfBytes, ElfStream};
+use elf::ElfBytes;
+#[cfg(feature = "elf_std")]
+use elf::ElfStream;
+#[cfg(feature = "elf_std")]
 use std::io::Cursor;
 
+#[cfg(feature = "elf_std")]
 pub type Stream<'a> = ElfStream<AnyEndian, Cursor<&'a [u8]>>;
 
 pub fn open_slice(data: &[u8]) -> Result<ElfBytes<'_, AnyEndian>, String> {
     ElfBytes::<AnyEndian>::minimal_parse(data).map_err(|e| format!("{e:?}"))
 }
 
+#[cfg(feature = "elf_std")]
 pub fn open_stream(data: &[u8]) -> Result<Stream<'_>, String> {
     ElfStream::<AnyEndian, _>::open_stream(Cursor::new(data)).map_err(|e| format!("{e:?}"))
 }
